@@ -50,6 +50,16 @@ def abfValidate (fullSamples minSamples : Int) (nvars : Nat) (maxForce : Option 
     | some l => if l.length ≠ nvars then (.rejected, f, m) else (.ok, f, m)
     | none => (.ok, f, m)
 
+/-- `colvarbias_meta::init`, multiple replicas: `replicaUpdateFrequency` must be positive -/
+def metaReplicaValidate (replicaUpdateFreq : Int) : Verdict := if replicaUpdateFreq = 0 then .rejected else .ok
+
+/-- `colvarbias_meta::update_bias` / `read_replica_files`: the "time to look at the other replicas?" test and the number of silent
+    periods (`replicaUpdateFrequency / newHillFrequency + 1`) after which a warning is printed; `none` = division by zero -/
+def metaReplicaFlush (replicaUpdateFreq newHillFreq : Nat) : Option Nat :=
+  if newHillFreq > 0 then (if newHillFreq = 0 then none else some (replicaUpdateFreq / newHillFreq + 1)) else some 1
+
+def metaReplicaTest (replicaUpdateFreq it : Int) : Option Int := safeMod it replicaUpdateFreq
+
 /-- `colvarbias_abf::init`, `historyFreq` against `outputFreq`: the verdict and the remainders evaluated on the way -/
 def abfHistoryValidate (historyFreq outputFreq : Int) : Verdict × List (Option Int) :=
   if historyFreq ≠ 0 then
